@@ -745,6 +745,50 @@ def shrink(story, fails):
     return cur
 
 
+def self_unsub_probe(kind, who, bad_name=False):
+    """Three subscriptions of the same kind; subscriber `who` unsubscribes itself from inside its own callback (the one-shot
+    pattern). The message that triggers it still reaches every subscriber exactly once, the next one reaches the other two.
+    With bad_name the advertisement carries a local name that is not valid UTF-8. Returns the callbacks per message."""
+    async def go(loop):
+        from aioesphomeapi import api_pb2 as pb
+        net = simnet.Net(loop)
+        per_msg = []
+        with net.patched():
+            cli, tr = await simnet.connected_client(loop, net)
+            log, unsubs = [], {}
+
+            def make(i):
+                def cb(*a):
+                    log.append(i)
+                    if i == who:
+                        unsubs[i]()
+                return cb
+            for i in range(3):
+                if kind == "adv":
+                    unsubs[i] = cli.subscribe_bluetooth_le_advertisements(make(i))
+                elif kind == "raw":
+                    unsubs[i] = cli.subscribe_bluetooth_le_raw_advertisements(make(i))
+                else:
+                    unsubs[i] = cli.subscribe_bluetooth_connections_free(make(i))
+            await simnet.drain(loop)
+            for n in range(3):
+                del log[:]
+                if kind == "adv":
+                    m = pb.BluetoothLEAdvertisementResponse(address=7 + n, rssi=-50, name=b"Caf\xe9 tag" if bad_name else b"n", address_type=1)
+                elif kind == "raw":
+                    m = pb.BluetoothLERawAdvertisementsResponse(advertisements=[pb.BluetoothLERawAdvertisement(address=7 + n, rssi=-40, data=b"d")])
+                else:
+                    m = pb.BluetoothConnectionsFreeResponse(free=2, limit=3)
+                tr.feed(simnet.plain_msg(m))
+                await simnet.drain(loop)
+                per_msg.append(sorted(log))
+            alive = cli._connection is not None and cli._connection.is_connected
+            await cli.disconnect(force=True)
+            await simnet.drain(loop)
+        return per_msg, alive
+    return simnet.run(go)
+
+
 def run(rep, tier, seed):
     rng = random.Random(seed)
     rep.coverage["rule"] = (
@@ -791,6 +835,19 @@ def run(rep, tier, seed):
         diff = compare(story, steps, mline)
         if diff is not None:
             disagreements.append({"story": jsonable(story), "difference": diff[1]})
+    for kind in ("cf", "adv", "raw"):
+        for who in (0, 1, 2, None):
+            for bad_name in ((False, True) if kind == "adv" else (False,)):
+                per_msg, alive = self_unsub_probe(kind, who, bad_name)
+                others = sorted(i for i in range(3) if i != who)
+                want = [[0, 1, 2], others, others]
+                rep.case(("self-unsub", kind, who, bad_name), True, sample={"self_unsubscribe": kind, "who": who, "callbacks_per_message": per_msg})
+                rep.bump("probe:self-unsub")
+                if per_msg != want or not alive:
+                    rep.violation("C17/one-callback-per-message", f"three {kind} subscriptions, subscriber {who} unsubscribes itself inside its callback"
+                                  f"{' (advertisement name is not valid UTF-8)' if bad_name else ''}: callbacks per message {per_msg}, expected {want}"
+                                  f"{'' if alive else '; the connection was closed'}",
+                                  {"kind": "self-unsub", "subscription": kind, "who": who, "bad_name": bad_name})
     rep.coverage["disagreements"] = len(disagreements)
     if disagreements and not rep.violations:
         d = disagreements[0]
@@ -804,6 +861,9 @@ def run(rep, tier, seed):
 def replay(path):
     common.setup_impl_path()
     d = json.loads(open(path).read())["replay"]
+    if d.get("kind") == "self-unsub":
+        print(self_unsub_probe(d["subscription"], d["who"], d.get("bad_name", False)))
+        return 0
     story = from_json(d["story"])
     steps = run_story(story)
     for st, ev in zip(story, steps):
